@@ -348,6 +348,49 @@ def _counting_while(block: list) -> list:
     return out
 
 
+class _ReExportDict(dict):
+    def __init__(self, program, kind):
+        super().__init__()
+        self._program = program
+        self._kind = kind
+
+    def _via_import(self, key):
+        if not isinstance(key, str) or "." not in key:
+            return None
+        mod, name = key.rsplit(".", 1)
+        p = self._program
+        m = p.modules.get(mod)
+        if m is None:
+            # Class.method through a re-exported class
+            if "." in mod:
+                c = p.classes.get(mod) if self._kind is Function else None
+                if c is not None:
+                    return c.find_method(name)
+            return None
+        if name in getattr(m, "functions", {}) or name in getattr(m, "classes", {}):
+            return None
+        try:
+            r = p.resolve_name(m, name)
+        except Exception:
+            return None
+        return r if isinstance(r, self._kind) else None
+
+    def __missing__(self, key):
+        r = self._via_import(key)
+        if r is None:
+            raise KeyError(key)
+        return r
+
+    def get(self, key, default=None):
+        if dict.__contains__(self, key):
+            return dict.__getitem__(self, key)
+        r = self._via_import(key)
+        return default if r is None else r
+
+    def __contains__(self, key):
+        return dict.__contains__(self, key) or self._via_import(key) is not None
+
+
 class Program:
     def __init__(self, root: str = "/repo"):
         self.root = root
@@ -355,8 +398,10 @@ class Program:
         if not os.path.isdir(self.pkgdir):
             raise AnalysisError(f"package directory not found: {self.pkgdir}")
         self.modules: Dict[str, Module] = {}
-        self.functions: Dict[str, Function] = {}
-        self.classes: Dict[str, Class] = {}
+        # lookups by qualified name follow re-exports: `tools.time.time_from_timeint` is found when tools/time.py only imports the
+        # function from a sibling module (a helper moved to another file stays the same anchor)
+        self.functions: Dict[str, Function] = _ReExportDict(self, Function)
+        self.classes: Dict[str, Class] = _ReExportDict(self, Class)
         self.all_functions: List[Function] = []
         self._parse_all()
         self._link()
@@ -559,6 +604,10 @@ class Program:
                     if sub is not None:
                         return sub
                     return None
+                # `from <namespace package> import <module>`: the package itself has no module object (no __init__.py)
+                sub = self.module_of(mod + "." + sym)
+                if sub is not None:
+                    return sub
                 return ("ext", mod + "." + sym)
         return None
 
